@@ -9,7 +9,7 @@ use crate::util::*;
 #[cfg_attr(kani, kani::proof)]
 #[cfg_attr(kani, kani::unwind(17))]
 pub fn c18_exact_points() {
-    let z = tf(0.0, 0.0);
+    let z = gtf(0.0, 0.0);
     let a = z.sinh();
     assert!(a.hi() == 0.0 && a.lo() == 0.0);
     let b = z.tanh();
@@ -18,7 +18,7 @@ pub fn c18_exact_points() {
     assert!(c.hi() == 0.0 && c.lo() == 0.0);
     let d = z.atanh();
     assert!(d.hi() == 0.0 && d.lo() == 0.0);
-    let e = tf(1.0, 0.0).acosh();
+    let e = gtf(1.0, 0.0).acosh();
     assert!(e.hi() == 0.0 && e.lo() == 0.0);
     let f = z.cosh();
     assert!(f.hi() == 1.0 && f.lo() == 0.0);
@@ -61,16 +61,16 @@ pub fn acosh_below_one(class: u8, kx: i32, m: u32) {
 pub fn c18_domain_ground() {
     let n = TwoFloat::NAN.ln();
     assert!(!spec_valid(n));
-    let n2 = tf(f64::NAN, 0.0).ln();
+    let n2 = gtf(f64::NAN, 0.0).ln();
     assert!(!spec_valid(n2));
-    assert!(!spec_valid(tf(0.5, 0.0).acosh()));
-    assert!(!spec_valid(tf(-0.5, 0.0).acosh()));
-    assert!(!spec_valid(tf(0.0, 0.0).acosh()));
-    assert!(!spec_valid(tf(-3.0, 0.0).acosh()));
-    assert!(!spec_valid(tf(1.0, 0.0).atanh()));
-    assert!(!spec_valid(tf(-1.0, 0.0).atanh()));
-    assert!(!spec_valid(tf(2.0, 0.0).atanh()));
-    assert!(!spec_valid(tf(-1.5, 0.0).atanh()));
+    assert!(!spec_valid(gtf(0.5, 0.0).acosh()));
+    assert!(!spec_valid(gtf(-0.5, 0.0).acosh()));
+    assert!(!spec_valid(gtf(0.0, 0.0).acosh()));
+    assert!(!spec_valid(gtf(-3.0, 0.0).acosh()));
+    assert!(!spec_valid(gtf(1.0, 0.0).atanh()));
+    assert!(!spec_valid(gtf(-1.0, 0.0).atanh()));
+    assert!(!spec_valid(gtf(2.0, 0.0).atanh()));
+    assert!(!spec_valid(gtf(-1.5, 0.0).atanh()));
     reached();
 }
 
